@@ -1,4 +1,4 @@
-"""C19 - name mapping is total and safe (I1). The retraction clause is not decided."""
+"""C19 - name mapping is total and safe (I1, I2); emitted keys are found again through the per-class key table (I3)."""
 from __future__ import annotations
 
 import ast
@@ -141,11 +141,149 @@ def rule_I2(ctx, rule: str = "I2") -> None:
                     "enum Foo { FOO_A = 0; A = 1; }")
 
 
+def _norm_key_expr(e: ast.AST, casing_name: str, field_name: str) -> str:
+    """key expression with its two variables renamed to $casing / $field"""
+    class R(ast.NodeTransformer):
+        def visit_Name(self, n):
+            if n.id == casing_name:
+                return ast.copy_location(ast.Name("$casing", n.ctx), n)
+            if n.id == field_name:
+                return ast.copy_location(ast.Name("$field", n.ctx), n)
+            return n
+    import copy
+    return ast.unparse(R().visit(copy.deepcopy(e)))
+
+
+def rule_I3(ctx, rule: str = "I3") -> None:
+    """key retraction: every key to_dict / to_pydict can emit for a field is a key of the per-class table that from_dict /
+    from_pydict consult first, built with the very same expression over every casing; other spellings fall back to the
+    function the plugin used to derive the Python name from the proto name"""
+    from ..src import M_INIT
+    mod = ctx.repo.mod(M_INIT)
+    # (a) emitted keys
+    emit = {}
+    for q in ("Message.to_dict", "Message.to_pydict"):
+        fn = mod.func(q)
+        ctx.analysed(q)
+        casing_param = fn.args.args[1].arg
+        loop = next((n for n in ast.walk(fn) if isinstance(n, ast.For) and "meta_by_field_name" in ast.unparse(n.iter)), None)
+        if loop is None or not isinstance(loop.target, ast.Tuple):
+            ctx.inconclusive(rule, f"{q}:key-expression", "field loop not recognised", mod.loc(fn))
+            return
+        fname = loop.target.elts[0].id
+        key_vars = {}
+        for n in ast.walk(loop):
+            if isinstance(n, ast.Assign) and len(n.targets) == 1 and isinstance(n.targets[0], ast.Name) and casing_param in {x.id for x in ast.walk(n.value) if isinstance(x, ast.Name)}:
+                key_vars[n.targets[0].id] = n.value
+        stores = [n for n in ast.walk(loop) if isinstance(n, ast.Subscript) and isinstance(n.ctx, ast.Store) and isinstance(n.value, ast.Name) and n.value.id == "output"]
+        used = set()
+        for st in stores:
+            k = st.slice
+            if isinstance(k, ast.Name) and k.id in key_vars:
+                used.add(_norm_key_expr(key_vars[k.id], casing_param, fname))
+            else:
+                used.add(_norm_key_expr(k, casing_param, fname))
+        if len(used) != 1:
+            ctx.inconclusive(rule, f"{q}:key-expression", f"{len(used)} different key expressions: {sorted(used)}", mod.loc(fn))
+            return
+        emit[q] = used.pop()
+    # casings a caller can pass: the attributes of class Casing
+    cas_cls = mod.cls("Casing")
+    casings = sorted(f"Casing.{t.id}" for st in cas_cls.body if isinstance(st, ast.Assign) for t in st.targets if isinstance(t, ast.Name))
+    # (b) the table
+    init = mod.func("ProtoClassMetadata.__init__")
+    ctx.analysed("ProtoClassMetadata.__init__")
+    table_attr = None
+    readers = {}
+    for q in ("Message._from_dict_init", "Message.from_pydict"):
+        fn = mod.func(q)
+        ctx.analysed(q)
+        loop = next((n for n in ast.walk(fn) if isinstance(n, ast.For) and isinstance(n.target, (ast.Name, ast.Tuple))), None)
+        key = loop.target.id if isinstance(loop.target, ast.Name) else loop.target.elts[0].id
+        asg = next((n for n in ast.walk(loop) if isinstance(n, ast.Assign) and isinstance(n.targets[0], ast.Name) and n.targets[0].id == "field_name"), None)
+        if asg is None:
+            ctx.inconclusive(rule, f"{q}:lookup", "field_name assignment not recognised", mod.loc(fn))
+            return
+        v = asg.value
+        first, fallback = (v.values[0], v.values[1:]) if isinstance(v, ast.BoolOp) and isinstance(v.op, ast.Or) else (v, [])
+        t = None
+        if isinstance(first, ast.Call) and isinstance(first.func, ast.Attribute) and first.func.attr == "get" and isinstance(first.func.value, ast.Attribute) \
+                and len(first.args) == 1 and ast.unparse(first.args[0]) == key and "_betterproto" in ast.unparse(first.func.value):
+            t = first.func.value.attr
+        fbs = [ast.unparse(f).replace(key, "$key") for f in fallback] if t else [ast.unparse(v).replace(key, "$key")]
+        # the if-form of the same fallback: later assignments to field_name in the loop
+        for other in ast.walk(loop):
+            if isinstance(other, ast.Assign) and other is not asg and isinstance(other.targets[0], ast.Name) and other.targets[0].id == "field_name":
+                fbs.append(ast.unparse(other.value).replace(key, "$key"))
+        readers[q] = (t, fbs, asg)
+    for q, (t, fb, asg) in readers.items():
+        if t is None:
+            ctx.refuted(rule, f"{q}:lookup", "derived-from-key", mod.loc(asg),
+                        f"{q} derives the field name from the key ({fb[0]}) instead of looking the key up: the casing functions are not inverse to each other "
+                        "(address_line_1 -> addressLine1 -> address_line1), so fields with a digit group or single-letter group in their name are silently dropped on a dict / JSON round trip",
+                        "M.from_dict(M(address_line_1='x').to_dict())")
+        else:
+            table_attr = table_attr or t
+            if t != table_attr:
+                ctx.refuted(rule, f"{q}:lookup", f"{t}!={table_attr}", mod.loc(asg), "the two decoders consult different tables")
+            else:
+                ctx.proved(rule, f"{q}:lookup", mod.loc(asg), f"table {t} first, then {fb}")
+    if table_attr is None:
+        return
+    # table construction: for field in <all fields>: for casing in (<casings>): T[KEY] = field
+    fills = []
+    for loop in [n for n in ast.walk(init) if isinstance(n, ast.For)]:
+        for inner in [n for n in ast.walk(loop) if isinstance(n, ast.For) and n is not loop]:
+            if not isinstance(inner.iter, (ast.Tuple, ast.List)):
+                continue
+            for c in ast.walk(inner):
+                keyexpr = None
+                if isinstance(c, ast.Call) and isinstance(c.func, ast.Attribute) and c.func.attr == "setdefault" and len(c.args) == 2:
+                    keyexpr, tgt, val = c.args[0], c.func.value, c.args[1]
+                elif isinstance(c, ast.Assign) and isinstance(c.targets[0], ast.Subscript):
+                    keyexpr, tgt, val = c.targets[0].slice, c.targets[0].value, c.value
+                if keyexpr is not None and isinstance(loop.target, ast.Name) and isinstance(inner.target, ast.Name) and ast.unparse(val) == loop.target.id:
+                    fills.append((ast.unparse(tgt), _norm_key_expr(keyexpr, inner.target.id, loop.target.id), sorted(ast.unparse(e) for e in inner.iter.elts), ast.unparse(loop.iter), c))
+    assigned = [n for n in ast.walk(init) if isinstance(n, ast.Assign) and isinstance(n.targets[0], ast.Attribute) and n.targets[0].attr == table_attr]
+    src_var = ast.unparse(assigned[0].value) if assigned else None
+    fills = [f for f in fills if f[0] == src_var]
+    if not fills:
+        ctx.inconclusive(rule, "key-table:construction", f"construction of {table_attr} not recognised", mod.loc(init))
+        return
+    tgt, kexpr, cas, dom, node = fills[0]
+    all_fields = {ast.unparse(n.targets[0].value) for n in ast.walk(init) if isinstance(n, ast.Assign) and isinstance(n.targets[0], ast.Subscript)
+                  and ast.unparse(n.targets[0].slice) == "field.name" and ast.unparse(n.value) == "meta"}
+    for q, e in emit.items():
+        name = f"{q}:keys-in-table"
+        if e != kexpr:
+            ctx.refuted(rule, name, f"{e}!={kexpr}", mod.loc(node),
+                        f"{q} emits the key {e} but the lookup table is built from {kexpr}: emitted keys are not found again")
+        elif not set(casings) <= set(cas):
+            ctx.refuted(rule, name, f"casings {cas}", mod.loc(node), f"the table covers the casings {cas} but to_dict accepts {casings}")
+        elif dom not in all_fields:
+            ctx.refuted(rule, name, f"domain {dom}", mod.loc(node), f"the table is built over {dom}, which is not the set of all fields ({sorted(all_fields)})")
+        else:
+            ctx.proved(rule, name, mod.loc(node), f"key {e} for casing in {cas} over {dom}")
+    # fallback = the plugin's proto-name -> Python-name function
+    nam = ctx.repo.mod(M_NAMING)
+    pf = nam.func("pythonize_field_name")
+    ret = next((ast.unparse(n.value) for n in ast.walk(pf) if isinstance(n, ast.Return) and n.value is not None), "")
+    want = ret.replace("casing.", "").replace(pf.args.args[0].arg, "$key")
+    for q, (t, fb, asg) in readers.items():
+        if fb and set(fb) == {want}:
+            ctx.proved(rule, f"{q}:proto-name-fallback", mod.loc(asg), want)
+        else:
+            ctx.refuted(rule, f"{q}:proto-name-fallback", f"{fb}!={want}", mod.loc(asg),
+                        f"keys that are not emitted forms (e.g. the original proto field name) are mapped with {fb}, but the plugin derived the Python name with {want}")
+
+
 def run(ctx) -> None:
     ctx.rules_run.append("I1")
     rule_I1(ctx)
     ctx.rules_run.append("I2")
     rule_I2(ctx)
+    ctx.rules_run.append("I3")
+    rule_I3(ctx)
     from . import jsonrules
     ctx.rules_run += ["J4", "K2"]
     jsonrules.rule_J4(ctx)      # from_dict maps every key through safe_snake_case (the only decided part of the retraction clause)
